@@ -316,6 +316,17 @@ class Deferred:
         return self.coro.__await__()
 
 
+def generator_based(coro: Any) -> Any:
+    """the same as a generator-based coroutine (`@types.coroutine`): awaitable, but not an instance of collections.abc.Awaitable"""
+    import types
+
+    @types.coroutine
+    def gen() -> Any:
+        return (yield from coro.__await__())
+
+    return gen()
+
+
 class Value:
     """resource values; about a third of them are *falsy* objects (like an empty registry or mapping)"""
 
@@ -548,7 +559,7 @@ class Run:
                         run.log("teardown-run", f"res{rid}")
 
                     def td(rid: str = rid) -> Any:  # type: ignore[misc]
-                        return Deferred(later())
+                        return Deferred(later()) if int(rid) % 8 == 1 else generator_based(later())
 
                     self.awaitable_object_teardowns += 1
             if r["kind"] == "factory":
@@ -581,8 +592,8 @@ class Run:
                 elif int(rid) % 3 == 1:
                     # an ordinary callable handing back an awaitable that is not a coroutine (a lazily connecting client, a
                     # future): its product is what awaiting that yields
-                    def lazy_factory(make: Any = afactory) -> Any:
-                        return Deferred(make())
+                    def lazy_factory(make: Any = afactory, rid: str = rid) -> Any:
+                        return Deferred(make()) if int(rid) % 2 else generator_based(make())
 
                     add_resource_factory(lazy_factory, r["given_name"], types=[T])
                     self.awaitable_object_factories += 1
